@@ -117,6 +117,7 @@ func TestC17(t *testing.T) {
 	for i := 0; i < mon.Pick(90, 25000); i++ {
 		targets = append(targets, CustomTarget(i))
 	}
+	targets = append(targets, NoShareTargets()...) // no usable share in the first hello: every TLS 1.3 server answers with a HelloRetryRequest
 	cookieSizes := []int{0, 1, 32, 254, 255, 256, 257, 510, 511, 512, 1000, 20000} // incl. the sizes around multiples of 256: one- vs two-byte length boundaries
 	type job struct {
 		t      Target
